@@ -47,7 +47,7 @@ NOT_PROVED = [
     "the stored deviance and information matrix are ONE SCORING STEP STALE relative to the returned coefficients (glm.rs: coef is "
     "updated before deviance(y, &mu) and compute_ddbeta(x, &dmu, &var, ..) are evaluated with the mu, dmu, var of the pass): "
     "fit_last_pass states exactly this; the clause `deviance at the fitted means` therefore holds up to the last step only - the "
-    "oracle allows |grad dev|_(H^-1) * (last-step bound) + tol * pd and observes at most ~21 * tol * deviance (ridge fits, where the "
+    "oracle allows |grad dev|_(H^-1) * (last-step bound) + tol * pd and observes at most ~36 * tol * deviance (ridge fits, where the "
     "alpha added to the intercept diagonal makes the iteration converge linearly)",
     "about the RETURNED coefficients there is a theorem only for the unpenalised Gaussian family (gaussian_fit_normal_equations: "
     "every pass is an exact weighted least-squares solve); for ridge-Gaussian fits and the five other families the fixed-point "
@@ -59,10 +59,11 @@ NOT_PROVED = [
     "the floating-point scoring-step theorems (Props/Rounding7, Rounding8; other owner) need p >= 2 (p = 1, intercept only, is "
     "inside the quantifier and is covered by tie + oracle only) and their hypothesis is `the step leaves beta unchanged in "
     "floating point`, which is not the code's deviance-based stopping test",
-    "FINDING PROPOSAL pending the lead's decision (key glm:weights:unweighted-deviance, check opt-in C06_WEIGHTED_DEVIANCE=1): with "
-    "prior weights the stored deviance is the unweighted sum while the score, the information and n = round(sum w) are weighted, "
-    "so dispersion and the standard errors of the Gaussian / QuasiPoisson / Gamma families are inconsistent with the weights "
-    "(w = 2 on every row vs the rows duplicated: dispersion and covariance halve, standard errors shrink by sqrt 2)",
+    "OPEN FINDING glm:weights:unweighted-deviance (known_findings.txt; the oracle emits the key for exactly this signature and the "
+    "check prints KNOWN-FINDING): with prior weights the stored deviance is the unweighted sum while the score, the information "
+    "and n = round(sum w) are weighted, so dispersion, aic/bic and the standard errors of the Gaussian / QuasiPoisson / Gamma "
+    "families are inconsistent with the weights (w = 2 on every row vs the rows duplicated: dispersion and covariance halve, "
+    "standard errors shrink by sqrt 2); the dependent accessors are judged against the stored deviance",
     "correctness of the linear solver / inverse used inside the step (C01's theorems; here a hypothesis H * solve H g = g)",
 ]
 TRUSTED = [
@@ -320,6 +321,10 @@ def corpus():
             L.append(mkline("gaussian", 12, 2, xc, [0.3 * v + 0.1 for v in cnt], [c] * 12, None, a, 1e-10, 200))
     L.append(mkline("bernoulli", 20, 2, xd, passed, [2.0] * 20, None, 0.1, 1e-10, 200))
     L.append(mkline("exponential", 12, 2, xc, [v + 0.5 for v in cnt], [7.0] * 12, None, 0.0, 1e-10, 200))
+    # open finding glm:weights:unweighted-deviance: w = 2 on every row vs the same rows duplicated: same coefficients, but
+    # deviance 0.1325 vs 0.265, dispersion 0.01325 vs 0.0265, standard errors smaller by sqrt 2
+    L.append(mkline("gaussian", 6, 2, x, y, [2.0] * 6, None, 0.0, 1e-10, 50))
+    L.append(mkline("gaussian", 12, 2, x + x, y + y, None, None, 0.0, 1e-10, 50))
     # F51 (repaired): the log-link families used to start at eta = mean(y) on the LINK scale; for 354.9 < mean(y) <= 709.78
     # dmu*dmu overflowed, the step was 0 and `fit` reported success at the start value (witness: y in {399, 401} -> coef 400
     # instead of ln 400 = 5.99).  They start at ln(mean(y)) now: a stationary point or Err is demanded by the oracle.
@@ -1058,15 +1063,21 @@ def check_fit(mp, i, line, rep, fails):
     if derr > dbound:
         fails.append(Failure(i, "deviance:" + key0, "reported deviance %r differs from the family deviance at the fitted means %r by %.3e > %.3e" % (
             r["dev"], float(A["dev"]), float(derr), float(dbound)), f2h(float(A["dev"]))))
-    # ---- 3b. (opt-in, C06_WEIGHTED_DEVIANCE=1; see the report) with prior weights the deviance that is consistent with the
-    #          weighted score equations and with n = round(sum w) is sum_i w_i d(y_i, mu_i); the source sums unweighted terms.
-    if os.environ.get("C06_WEIGHTED_DEVIANCE") and w is not None and any(v != 1.0 for v in w):
+    # ---- 3b. OPEN FINDING glm:weights:unweighted-deviance (known_findings.txt): with prior weights the deviance that is
+    #          consistent with the weighted score equations, the weighted information and n = round(sum w) is
+    #          sum_i w_i d(y_i, mu_i); the source stores the unweighted sum.  The key is emitted ONLY for that signature:
+    #          weights present and not all 1, the stored deviance IS the unweighted family deviance (clause 3 above passed)
+    #          and differs from the weighted one.  Any other deviance discrepancy is the `deviance:` failure of clause 3.
+    #          The dependent accessors (dispersion, aic, bic, covariance, standard errors) are judged against the stored
+    #          deviance / reported dispersion (clauses 4, 5), so the same root cause raises no second failure.
+    if derr <= dbound and w is not None and any(v != 1.0 for v in w):
         wdev = sum(mp.mpf(wi) * udev(mp.mpf(yy), m) for wi, yy, m in zip(w, y, A["mu"]))
-        if abs(mp.mpf(r["dev"]) - wdev) > dbound + mp.mpf("1e-6") * abs(wdev):
+        wscale = max(abs(mp.mpf(wi)) for wi in w) + 1
+        if abs(mp.mpf(r["dev"]) - wdev) > wscale * dbound + mp.mpf("1e-6") * abs(wdev):
             fails.append(Failure(i, "glm:weights:unweighted-deviance",
                                  "with weights the stored deviance %r is the unweighted sum; the weighted deviance sum w_i d_i is %r "
-                                 "(dispersion = deviance/(sum w - p) and the standard errors inherit the mismatch)" % (r["dev"], float(wdev)),
-                                 f2h(float(wdev))))
+                                 "(dispersion = deviance/(sum w - p), aic/bic and the standard errors inherit the mismatch) [%s]" % (
+                                     r["dev"], float(wdev), key0), f2h(float(wdev))))
     # ---- 5. covariance = dispersion * inverse(Fisher information), standard errors = sqrt(diag).  The stored information is
     #         evaluated one scoring step before the returned beta; the working weights move by a relative
     #         exp(|x_i . step|) - 1 <= ~ max_i |x_i|_{H^-1} * sqrt(T)  (zero for the Gaussian family).
